@@ -38,7 +38,7 @@ ASSUMPTIONS = ["os._exit at event boundaries models process death (userspace buf
                "inside a single h5py/libhdf5 call are reached only by the SIGKILL family",
                "torn writes inside the HDF5 payload of the uncommitted file are not asserted (it has no hash yet)",
                "power-loss reordering / durability is not claimed (no fsync is promised)"]
-REQUIRED_CLASSES = {"all": ["crash_in_commit", "crash_before_commit", "torn_inside_json", "outcome_fails_to_open",
+REQUIRED_CLASSES = {"all": ["long_chain_12_containers", "crash_in_commit", "crash_before_commit", "torn_inside_json", "outcome_fails_to_open",
                             "outcome_uncommitted", "outcome_new_state", "outcome_old_state", "sigkill"]}
 BUDGET_S = {"quick": 900, "thorough": 4 * 3600}
 NSHARD = 16
@@ -416,6 +416,18 @@ def run_shard(shard, tier, seed, rec):
             lambda h, tail, via, e: dict(history=h + [["commit"]], tail=tail, cls=cls_name, commit_via=via, exts=e),
             H.histories(1, 10, boundary_weight=2), H.histories(1, 6, boundary_weight=0),
             st.sampled_from(["commit_patch", "commit_patch", "close"]), st.sampled_from([None, {"k": 1}]))
+        if i in (0, 1):
+            # a fixed long chain: the interrupted patch is the 12th container (two-digit patch numbers in file names)
+            long = []
+            for k in range(11):
+                long += [["set", 0, f"w{k}", {"t": "int", "v": k % 10}], ["commit"]]
+            case = dict(history=long, tail=[["set", 0, "t", {"t": "int", "v": 1}], ["del", 0, 0]], cls=cls_name,
+                        commit_via="commit_patch", exts=None)
+            try:
+                run_scenario(case, rec, tier)
+                rec.cls("long_chain_12_containers")
+            except Violation as v:
+                rec.fail(v.signature, case, v.observed, v.expected)
         hyp.search(strat, lambda c: run_scenario(c, rec, tier), rec, seed=seed * 1000 + i, max_examples=n,
                    shrink_budget_s=30 if tier == "quick" else 120)
     else:
